@@ -403,3 +403,114 @@ Proof.
   rewrite <- nrows_filter_split. f_equal. unfold nrows. f_equal. f_equal.
   symmetry. apply (delete_exact_when v cf (with_dry rq false) ds rr dsr Hcr eq_refl Er Hs). exact Hk.
 Qed.
+
+(* ---- the search as a parameter ([delete_run_s]) ----------------------------------------------------------- *)
+Lemma faithful_match_count sh p ds f : search_faithful sh p ds -> In f ds -> match_count_s sh f = match_count p f.
+Proof.
+  intros H Hf. unfold match_count_s, match_count, countb. f_equal. f_equal.
+  apply filter_ext_in'. intros r Hr. apply H; assumption.
+Qed.
+
+Lemma faithful_affected sh p ds f : search_faithful sh p ds -> In f ds -> is_affected_s sh f = is_affected p f.
+Proof. intros H Hf. unfold is_affected_s, is_affected. rewrite (faithful_match_count sh p ds f H Hf). reflexivity. Qed.
+
+Lemma rewrite_all_g_ext v aff p ds :
+  (forall f, In f ds -> aff f = is_affected p f) -> rewrite_all_g v aff p ds = rewrite_all v p ds.
+Proof.
+  induction ds as [|f r IH]; intros H; cbn [rewrite_all_g rewrite_all]; [reflexivity|].
+  rewrite IH by (intros g Hg; apply H; right; exact Hg).
+  rewrite (H f (or_introl eq_refl)). reflexivity.
+Qed.
+
+(* with a faithful search the run is the run with the ideal search *)
+Lemma delete_run_s_faithful v sh cf rq ds :
+  search_faithful sh (rq_pred rq) ds -> delete_run_s v sh cf rq ds = delete_run v cf rq ds.
+Proof.
+  intros H. unfold delete_run_s, delete_run.
+  assert (E1 : filter (is_affected_s sh) ds = affected_files (rq_pred rq) ds).
+  { unfold affected_files. apply filter_ext_in'. intros f Hf. apply (faithful_affected sh _ ds f H Hf). }
+  assert (E3 : rewrite_all_g v (is_affected_s sh) (rq_pred rq) ds = rewrite_all v (rq_pred rq) ds).
+  { apply rewrite_all_g_ext. intros f Hf. apply (faithful_affected sh _ ds f H Hf). }
+  destruct (rq_class rq); try reflexivity.
+  rewrite E1, E3.
+  destruct (affected_files (rq_pred rq) ds) as [|a l] eqn:Ea; [reflexivity|].
+  assert (E2 : map (match_count_s sh) (a :: l) = map (match_count (rq_pred rq)) (a :: l)).
+  { apply map_ext_in. intros f Hf. apply (faithful_match_count sh _ ds f H).
+    rewrite <- Ea in Hf. unfold affected_files in Hf. apply filter_In in Hf. tauto. }
+  rewrite E2. reflexivity.
+Qed.
+
+Lemma ideal_search_faithful p ds : search_faithful (ideal_search p) p ds.
+Proof. intros f r _ _. reflexivity. Qed.
+
+Lemma delete_run_s_ideal v cf rq ds : delete_run_s v (ideal_search (rq_pred rq)) cf rq ds = delete_run v cf rq ds.
+Proof. apply delete_run_s_faithful, ideal_search_faithful. Qed.
+
+(* ---- what holds whatever the search answers ---------------------------------------------------------------------- *)
+Lemma rewrite_all_g_count v aff p ds :
+  ra_deleted (rewrite_all_g v aff p ds) = nrows ds - nrows (ra_ds (rewrite_all_g v aff p ds)).
+Proof.
+  unfold ra_deleted, ra_ds.
+  induction ds as [|f r IH]; cbn [rewrite_all_g]; [reflexivity|].
+  destruct (rewrite_all_g v aff p r) as [[d k] r'] eqn:E. cbn [fst snd] in IH.
+  destruct (aff f).
+  - destruct (unbound p (snd f)).
+    + cbn [fst snd]. rewrite !nrows_cons. lia.
+    + unfold rewrite_file.
+      destruct (filter (fun r0 => holds r0 (keep_pred v p)) (snd f)) as [|k0 ks] eqn:Ek; cbn [fst snd].
+      * rewrite nrows_cons. cbn [length]. lia.
+      * rewrite !nrows_cons. cbn [snd]. lia.
+  - cbn [fst snd]. rewrite !nrows_cons. lia.
+Qed.
+
+Lemma rewrite_all_g_keeps_false v aff p ds r :
+  In r (rows_of ds) -> eval r p = F -> In r (rows_of (ra_ds (rewrite_all_g v aff p ds))).
+Proof.
+  unfold ra_ds. induction ds as [|f rest IH]; cbn [rewrite_all_g]; intros Hin He; [destruct Hin|].
+  rewrite rows_of_cons in Hin. apply in_app_or in Hin.
+  destruct (rewrite_all_g v aff p rest) as [[d k] r'] eqn:E. cbn [snd] in IH.
+  assert (Hkeep : In r (snd f) -> In r (filter (fun r0 => holds r0 (keep_pred v p)) (snd f))).
+  { intros Hr. apply filter_In. split; [exact Hr|apply keep_false; exact He]. }
+  destruct (aff f).
+  - destruct (unbound p (snd f)).
+    + cbn [snd]. rewrite rows_of_cons. apply in_or_app. destruct Hin as [Hin|Hin]; [left; exact Hin|right; apply IH; assumption].
+    + unfold rewrite_file.
+      destruct (filter (fun r0 => holds r0 (keep_pred v p)) (snd f)) as [|k0 ks] eqn:Ek; cbn [snd].
+      * destruct Hin as [Hin|Hin]; [exfalso; apply Hkeep in Hin; destruct Hin|apply IH; assumption].
+      * rewrite rows_of_cons. cbn [snd]. apply in_or_app.
+        destruct Hin as [Hin|Hin]; [left; apply Hkeep; exact Hin|right; apply IH; assumption].
+  - cbn [snd]. rewrite rows_of_cons. apply in_or_app. destruct Hin as [Hin|Hin]; [left; exact Hin|right; apply IH; assumption].
+Qed.
+
+(* any search: no FALSE row is ever lost; a real run that rewrote files reports exactly what disappeared;
+   a dry run or a run that reports neither 200 nor 207 changes nothing *)
+Lemma delete_any_search v sh cf rq ds rsp ds' :
+  delete_run_s v sh cf rq ds = (rsp, ds') ->
+  (forall r, In r (rows_of ds) -> eval r (rq_pred rq) = F -> In r (rows_of ds')) /\
+  (rq_dry rq = false -> rs_status rsp = 200 \/ rs_status rsp = 207 -> rs_deleted rsp = nrows ds - nrows ds') /\
+  ((rs_status rsp <> 200 /\ rs_status rsp <> 207) \/ rq_dry rq = true -> ds' = ds).
+Proof.
+  unfold delete_run_s. intros H.
+  assert (Hsame : forall rsp0, (rsp0, ds) = (rsp, ds') -> rs_deleted rsp0 = 0 ->
+            (forall r, In r (rows_of ds) -> eval r (rq_pred rq) = F -> In r (rows_of ds')) /\
+            (rq_dry rq = false -> rs_status rsp = 200 \/ rs_status rsp = 207 -> rs_deleted rsp = nrows ds - nrows ds') /\
+            ((rs_status rsp <> 200 /\ rs_status rsp <> 207) \/ rq_dry rq = true -> ds' = ds)).
+  { intros rsp0 E Hd. inversion E; subst. repeat split; try tauto. intros _ _. lia. }
+  destruct (rq_class rq).
+  - destruct (rq_full rq && negb (rq_confirm rq)); [eapply Hsame; [exact H|reflexivity]|].
+    destruct (negb (rq_dry rq) && negb (rq_confirm rq)); [eapply Hsame; [exact H|reflexivity]|].
+    destruct (filter (is_affected_s sh) ds) as [|a l]; [eapply Hsame; [exact H|reflexivity]|].
+    destruct (cf_max_rows cf <? _); [eapply Hsame; [exact H|reflexivity]|].
+    destruct ((cf_threshold cf <? _) && negb (rq_confirm rq)); [eapply Hsame; [exact H|reflexivity]|].
+    destruct (rq_dry rq) eqn:Ed.
+    { inversion H; subst. repeat split; try tauto. intros; discriminate. }
+    pose proof (rewrite_all_g_count v (is_affected_s sh) (rq_pred rq) ds) as Hcnt.
+    pose proof (rewrite_all_g_keeps_false v (is_affected_s sh) (rq_pred rq) ds) as Hkf.
+    destruct (rewrite_all_g v (is_affected_s sh) (rq_pred rq) ds) as [[d k] dsr]. unfold ra_deleted, ra_ds in *. cbn [fst snd] in *.
+    destruct (0 <? k); injection H as Hr Hd; rewrite <- Hr, <- Hd; cbn [rs_deleted rs_status resp].
+    + repeat split; [exact Hkf|intros; exact Hcnt|]. intros [[_ H7]|Hx]; [congruence|discriminate].
+    + repeat split; [exact Hkf|intros; exact Hcnt|]. intros [[H2 _]|Hx]; [congruence|discriminate].
+  - eapply Hsame; [exact H|reflexivity].
+  - destruct (rq_full rq && negb (rq_confirm rq)); [eapply Hsame; [exact H|reflexivity]|].
+    destruct (negb (rq_dry rq) && negb (rq_confirm rq)); eapply Hsame; try exact H; reflexivity.
+Qed.
